@@ -24,7 +24,41 @@ from vlib import paths
 # variants of the working tree, read from the source with `ast` (regenerate):
 #   zl    = 1: _fill_coeff zeroes the last element of a full-length step coefficient (fixes/C14-2.patch)
 #   ndmin = 2: read_coeff calls np.loadtxt(..., ndmin=2)                              (fixes/C14-3.patch)
-FLAGS = {"zl": 0, "ndmin": 0, "read": False}
+#   hold  = 1: the cubic branch of _fill_coeff keeps the boundary sample outside the channel's grid (fixes/C14-4.patch)
+FLAGS = {"zl": 0, "ndmin": 0, "hold": 0, "cubic": "fun _ => .notAKnot", "read": False}
+
+_CUBIC_HEAD = ["sp = CubicSpline(old_tlist, old_coeffs)", "new_coeff = sp(full_tlist)"]
+_CUBIC_ZERO = ["new_coeff *= full_tlist <= old_tlist[-1]", "new_coeff *= full_tlist >= old_tlist[0]"]
+_CUBIC_HOLD = ["new_coeff[full_tlist > old_tlist[-1]] = old_coeffs[-1]", "new_coeff[full_tlist < old_tlist[0]] = old_coeffs[0]"]
+
+
+def _cubic_branch(fn):
+    """the else-branch of `if '_step_func_coeff' in args and args[...]` -> (Lean term for Gen.cubicInterp, hold flag)"""
+    for node in ast.walk(fn):
+        if isinstance(node, ast.If) and "_step_func_coeff" in ast.unparse(node.test) and node.orelse:
+            body = node.orelse
+            stm = [ast.unparse(x) for x in body]
+            tail = stm[-2:]
+            if tail == _CUBIC_ZERO:
+                hold = 0
+            elif tail == _CUBIC_HOLD:
+                hold = 1
+            else:
+                raise TranslatorError("cubic branch of _fill_coeff: treatment outside the channel's grid not recognised: " + "; ".join(tail))
+            head = body[:-2]
+            if [ast.unparse(x) for x in head] == _CUBIC_HEAD:
+                return "fun _ => .notAKnot", hold
+            # `if len(old_tlist) < K: new_coeff = np.interp(full_tlist, old_tlist, old_coeffs) else: <spline>`
+            if (len(head) == 1 and isinstance(head[0], ast.If) and isinstance(head[0].test, ast.Compare)
+                    and ast.unparse(head[0].test.left) == "len(old_tlist)" and len(head[0].test.ops) == 1
+                    and isinstance(head[0].test.ops[0], (ast.Lt, ast.LtE)) and isinstance(head[0].test.comparators[0], ast.Constant)
+                    and isinstance(head[0].test.comparators[0].value, int)
+                    and [ast.unparse(x) for x in head[0].body] == ["new_coeff = np.interp(full_tlist, old_tlist, old_coeffs)"]
+                    and [ast.unparse(x) for x in head[0].orelse] == _CUBIC_HEAD):
+                k = head[0].test.comparators[0].value + (1 if isinstance(head[0].test.ops[0], ast.LtE) else 0)
+                return f"fun n => if n < {k} then .linear else .notAKnot", hold
+            raise TranslatorError("cubic branch of _fill_coeff not recognised: " + "; ".join(stm)[:300])
+    raise TranslatorError("cubic branch of _fill_coeff not found")
 
 
 def _func(tree, name):
@@ -65,7 +99,8 @@ def detect_flags():
             ndmin = 2 if kws.get("ndmin") == "2" else 0
     if ndmin is None:
         raise TranslatorError("np.loadtxt call of read_coeff not found")
-    return {"zl": zl, "ndmin": ndmin, "read": True}
+    cubic, hold = _cubic_branch(_func(t_pulse, "_fill_coeff"))
+    return {"zl": zl, "ndmin": ndmin, "hold": hold, "cubic": cubic, "read": True}
 
 
 def flags():
@@ -331,7 +366,11 @@ def ref_spline(tl, cs):
 def ref_cubic_value(ch, sp, t):
     """spline inside the channel's range; outside the resampling of the code (and this reference) is 0"""
     tl = ch["tlist"]
-    return float(sp(t)) if tl[0] <= t <= tl[-1] else 0.0
+    if tl[0] <= t <= tl[-1]:
+        return float(sp(t))
+    if flags()["hold"]:
+        return float(ch["coeff"][-1] if t > tl[-1] else ch["coeff"][0])
+    return 0.0
 
 
 def make_cubic_spec(rng, same_end=None, counts=None):
@@ -353,8 +392,8 @@ def make_cubic_spec(rng, same_end=None, counts=None):
             tl = [x + (rng.uniform(-0.2, 0.2) * end / (n - 1) if 0 < j < n - 1 else 0.0) for j, x in enumerate(tl)]
             tl[0], tl[-1] = 0.0, end
         cs = [rng.uniform(-2, 2) for _ in range(n)]
-        if end < t_end:
-            cs[-1] = 0.0        # past its end the code resamples 0, the QuTiP-5 solver holds the last sample
+        if end < t_end and not flags()["hold"]:
+            cs[-1] = 0.0        # unrepaired tree: past its end the code resamples 0, the QuTiP-5 solver holds the last sample
         k = rng.randint(1, min(2, nsub))
         chans.append({"targets": rng.sample(range(nsub), k), "tlist": tl, "coeff": cs})
     drift = {"targets": rng.sample(range(nsub), rng.randint(1, min(2, nsub)))} if rng.random() < 0.6 else None
@@ -455,7 +494,7 @@ def check_cubic(spec, solver=True, full=False):
     except Exception as e:
         return f"get_qobjevo raised {type(e).__name__}: {e}"
     for k, t in enumerate(T):
-        inside = all(ch["tlist"][-1] >= t or ch["coeff"][-1] == 0 for ch in spec["chans"])
+        inside = flags()["hold"] or all(ch["tlist"][-1] >= t or ch["coeff"][-1] == 0 for ch in spec["chans"])
         if not (inside or full):
             continue
         Hs = qu(float(t)).full()
@@ -465,7 +504,7 @@ def check_cubic(spec, solver=True, full=False):
                     f"by {np.abs(Hs - Hc).max():.3e}")
     psi, v = init_state(spec)
     yref = None
-    held = all(ch["tlist"][-1] == T[-1] or ch["coeff"][-1] == 0 for ch in spec["chans"])
+    held = flags()["hold"] or all(ch["tlist"][-1] == T[-1] or ch["coeff"][-1] == 0 for ch in spec["chans"])
     if solver and held:
         yref = ref_cubic_state(spec, drift_full, mats, v, T[-1])
         try:
@@ -551,6 +590,8 @@ class C14(PropertyCheck):
         "QipVerif.C14.fullCoeffs_eq_repaired",
         "QipVerif.C14.save_read_shape_repaired",
         "QipVerif.C14.variants_false",
+        "QipVerif.C14.cubic_interpolant",
+        "QipVerif.C14.splineDegree_spec",
     ]
     technique = ("Lean 4 proof (induction over the merged grid with the slot invariant, exact rationals) + model/implementation "
                  "correspondence; the solver part is numerical agreement (partial)")
@@ -594,9 +635,22 @@ class C14(PropertyCheck):
 
     def regenerate(self, ctx):
         FLAGS.update(detect_flags())
+        gen = os.path.join(paths.LEAN, "QipVerif", "Gen", "FillCubic.lean")
+        text = ("import QipVerif.Model.Grid\n"
+                "/-! REGENERATED by py/props/c14.py from src/qutip_qip/pulse.py:_fill_coeff (cubic branch). Do not edit. -/\n"
+                "namespace QipVerif.Gen\nopen QipVerif.Grid\n\n"
+                "/-- the interpolation routine the cubic branch of `_fill_coeff` calls for a channel with `n` samples -/\n"
+                f"def cubicInterp : Nat → Interp := {FLAGS['cubic']}\n\n"
+                "/-- outside the channel's own grid the resampled coefficient keeps the boundary sample (`false`: it is 0) -/\n"
+                f"def cubicHoldsOutside : Bool := {'true' if FLAGS['hold'] else 'false'}\n\n"
+                "end QipVerif.Gen\n")
+        old = open(gen).read() if os.path.exists(gen) else None
+        if old != text:
+            os.makedirs(os.path.dirname(gen), exist_ok=True)
+            open(gen, "w").write(text)
         ctx.log(f"variants of {paths.REPO}: step padding zeroes the last element of a full-length coefficient = {bool(FLAGS['zl'])}, "
                 f"np.loadtxt ndmin = {FLAGS['ndmin']}")
-        return []
+        return [gen] if old != text else []
 
     # -----------------------------------------------------------------------------------------
     def _three(self, ctx, mk):
